@@ -334,7 +334,30 @@ def plan_late_failure(rng, w):
     alive = [o._status_ not in DEL for o in objs]
     live_of = lambda e: [i for i, o in enumerate(objs) if alive[i] and w.classes.index(type(o)) == e]
     dead_of = lambda e: [i for i, o in enumerate(objs) if not alive[i] and w.classes.index(type(o)) == e]
-    kind = rng.choice(['refused-delete', 'refused-delete', 'set-late', 'cascade-refused'])
+    kind = rng.choice(['refused-delete', 'refused-delete', 'set-late', 'cascade-refused', 'coll-late', 'coll-late'])
+    if kind == 'coll-late':
+        # add / assign on a one-to-many collection: good items plus one deleted object; remove on a cascading one: one item whose delete is refused
+        cands = []
+        for i in range(len(objs)):
+            if not alive[i]: continue
+            for c in w.ent_attrs[w.classes.index(type(objs[i]))]:
+                m = ms['attrs'][c]
+                if m['kind'] != 'coll' or ms['attrs'][m['rev']]['kind'] != 'ref': continue
+                te = ms['attrs'][m['rev']]['ent']
+                cur = [w.idx(x) for x in (objs[i]._vals_.get(w.attr[c]) or ())]
+                fresh = [x for x in live_of(te) if x not in cur and x != i]
+                if dead_of(te) and fresh: cands.append(('add', i, c, fresh, dead_of(te), cur))
+                if m['casc'] and len(cur) >= 2 and any(delete_refused(w, x) for x in cur) and not all(delete_refused(w, x) for x in cur):
+                    cands.append(('remove', i, c, cur, None, cur))
+        if not cands: return None
+        how, i, c, pool, dead, cur = rng.choice(cands)
+        if how == 'remove':
+            w.plan.append({'k': 'remove', 'o': i, 'a': c, 'items': sorted(cur)})
+            return 'plan:remove-cascade-refused-midway'
+        items = sorted(set(rng.sample(pool, min(len(pool), rng.choice([1, 2, 3]))) + [rng.choice(dead)]))
+        if rng.random() < 0.6: w.plan.append({'k': 'add', 'o': i, 'a': c, 'items': items})
+        else: w.plan.append({'k': 'set', 'o': i, 'a': c, 'v': {'coll': sorted(set(items + (cur[:1] if rng.random() < 0.5 else [])))}})
+        return 'plan:collection-call-fails-on-a-deleted-item-midway'
     if kind == 'refused-delete':
         # an object with a blocker and a collection that the delete clears through Set.__set__(obj, (), undo_funcs) before it is refused
         cands = []
